@@ -171,8 +171,14 @@ class G:
                 # sliced axis), so that subscripts occur inside blocks and again in the enclosing graph
                 forms = [f"({e} - {name}[0:1])", f"({e} + {name}[1:2])", f"op.Concat({name}[:1], {name}[1:], axis=0)",
                          f"({e} * {name}[0])"]
+                # empty and end-relative slices (explicit stop 0, start == stop, start > stop, negative bounds), glued back so
+                # that the shape is preserved: an empty slice contributes nothing to a Concat
+                forms += [f"op.Concat({name}[:0], {e}, axis=0)", f"op.Concat({e}, {name}[1:1], axis=0)",
+                          f"op.Concat({name}[2:0], {e}, axis=0)", f"op.Concat({name}[:-1], {name}[-1:], axis=0)",
+                          f"op.Concat({name}[0:0], {name}[:1], {name}[1:], axis=0)"]
                 if v.a.ndim >= 2 and v.a.shape[1] >= 1:
-                    forms += [f"({e} + {name}[:, 0:1])", f"({e} - {name}[0, 0:1])", f"({e} + {name}[0:1, 0:1])"]
+                    forms += [f"({e} + {name}[:, 0:1])", f"({e} - {name}[0, 0:1])", f"({e} + {name}[0:1, 0:1])",
+                              f"op.Concat({e}, {name}[:, :0], axis=1)"]
                 e = r.choice(forms)
                 self.feat.add("subscript")
             elif k == "addlit":
